@@ -836,3 +836,14 @@ def p_m_c08(world):
                         V.append(dict(sig='C08 foreachnode body ran for a plug that has no node', at=pi, dev=di, line=repr(ln)))
     pred.__name__ = 'p_m_c08'
     return pred
+
+
+def p_f23(tr, V, st):
+    """F23: after `quit` (or EOF) the daemon switches the client's descriptor to blocking mode to flush what is queued; if the
+    client does not take it, the whole daemon blocks in write().  The simulated kernel never blocks: the harness flags every
+    such write (more queued than the descriptor accepts, on a descriptor made blocking)."""
+    for p in tr:
+        for fd, w in p.writes.items():
+            if fd < 2000 and w.get('blocks'):
+                V.append(dict(sig='blocking write after client quit', at=p.i, fd=fd, bytes=len(w['data'])))
+                return
